@@ -1877,6 +1877,85 @@ func ruleORD9(w *World, r *Report) {
 			r.Cond(ok, "ORD-9", key, w.Pos(js[0].Pos()), why, q+" "+why+": a SaveSnapshot/RewriteAOF that begins between the journal write and the change to memory truncates the command and does not see its effect — the acknowledged write is lost on restart", w.witness(wit)...)
 		}
 	}
+	// (d) a composite operation is one gated operation: VDelete removes the node and then unlinks its edges, each unlink
+	// a journaling operation with a gate bracket of its own. The bracket of VDelete itself has to span the node delete AND the
+	// cascade: with one bracket per step, a snapshot that drains between two steps captures the node deleted with its edges
+	// alive and truncates the VDEL record — a crash before the cascade ends then restores a deleted node with live edges.
+	if vd, unlink := w.Func("pkg/engine", "Engine.VDelete"), w.FuncObj("pkg/engine", "Engine.VUnlink"); vd != nil && unlink != nil {
+		isDel := func(in ssa.Instruction) bool {
+			c, ok := in.(*ssa.Call)
+			return ok && c.Call.IsInvoke() && c.Call.Method.Name() == "Delete"
+		}
+		var reaches func(f *ssa.Function, pred func(ssa.Instruction) bool, depth int) bool
+		reaches = func(f *ssa.Function, pred func(ssa.Instruction) bool, depth int) bool {
+			if f == nil || depth > 4 {
+				return false
+			}
+			for _, g := range append([]*ssa.Function{f}, closuresOf(f)...) {
+				for _, b := range g.Blocks {
+					for _, in := range b.Instrs {
+						if pred(in) {
+							return true
+						}
+						if c, ok := in.(ssa.CallInstruction); ok {
+							if cal := c.Common().StaticCallee(); cal != nil && cal != f && inModule(cal) {
+								if o, _ := cal.Object().(*types.Func); o != nil && relPkg(o) == "pkg/engine" && !o.Exported() && reaches(cal, pred, depth+1) {
+									return true
+								}
+							}
+						}
+					}
+				}
+			}
+			return false
+		}
+		leadsTo := func(pred func(ssa.Instruction) bool) func(ssa.Instruction) bool {
+			return func(in ssa.Instruction) bool {
+				if pred(in) {
+					return true
+				}
+				if mc, ok := in.(*ssa.MakeClosure); ok {
+					if f, _ := mc.Fn.(*ssa.Function); f != nil {
+						return reaches(f, pred, 1)
+					}
+				}
+				if c, ok := in.(ssa.CallInstruction); ok {
+					if cal := c.Common().StaticCallee(); cal != nil && inModule(cal) {
+						if o, _ := cal.Object().(*types.Func); o != nil && relPkg(o) == "pkg/engine" && !o.Exported() {
+							return reaches(cal, pred, 1)
+						}
+					}
+				}
+				return false
+			}
+		}
+		root := w.SSAFunc(vd.Obj)
+		toDel, toCascade := leadsTo(isDel), leadsTo(callsTo(unlink))
+		// a VDelete that only forwards to the function doing the work: that function is the operation
+		for hop := 0; hop < 3 && root != nil && len(findInstrs(root, isEnter)) == 0; hop++ {
+			both := findInstrs(root, func(in ssa.Instruction) bool { return toDel(in) && toCascade(in) })
+			if len(both) != 1 {
+				break
+			}
+			next := both[0].(ssa.CallInstruction).Common().StaticCallee()
+			if next == nil {
+				break
+			}
+			root = next
+		}
+		if root == nil || len(findInstrs(root, toDel)) == 0 || len(findInstrs(root, toCascade)) == 0 {
+			r.Und("ORD-9", "Engine.VDelete:composite", w.Pos(vd.Decl.Pos()), "the node delete or the cascade of VUnlink calls was not found in Engine.VDelete and its helpers (shape not recognised)")
+		} else {
+			for _, part := range []struct {
+				name string
+				at   func(ssa.Instruction) bool
+			}{{"node-delete", toDel}, {"cascade", toCascade}} {
+				ok, why, wit := insideGate(root, part.at, 0)
+				site := findInstrs(root, part.at)[0]
+				r.Cond(ok, "ORD-9", "Engine.VDelete:"+part.name+":inside-the-gate-bracket-of-the-whole-delete", w.Pos(site.Pos()), "the bracket of the delete operation spans this step ("+why+")", "the "+part.name+" step of Engine.VDelete is not inside a gate bracket that spans the whole delete (the operation "+why+"): with a bracket per step, SaveSnapshot/RewriteAOF can drain between the node delete and the end of the cascade, serialise the node as deleted with its edges alive and truncate the VDEL record; after a crash before the cascade ends the deleted node keeps live edges", w.witness(wit)...)
+			}
+		}
+	}
 	// (b)
 	nb := 0
 	for _, fi := range w.ModuleFuncs() {
